@@ -42,7 +42,9 @@ func contentType(name string, inline bool) string {
 }
 
 var c12Payloads = []string{"<b>&\"'", "</script>", "a'b\"c", "x&y<z", "\\n;}{", "é<ü>", "1<2", "a b/c=d", "'+alert(1)+'", "&amp;", "%20&#39;", "plain"}
-var c12Names = []string{"a.html", "b.html.twig", "c.js", "d.js.twig", "e.css", "f.txt", "g.txt.twig", "noext", "h.twig", "i.xml", "dir.d/x", "k.tpl", "l.css.twig", "m.htm"}
+var c12Names = []string{"a.html", "b.html.twig", "c.js", "d.js.twig", "e.css", "f.txt", "g.txt.twig", "noext", "h.twig", "i.xml", "dir.d/x", "k.tpl", "l.css.twig", "m.htm",
+	// names without any dot that equal a content-type key
+	"txt", "js", "css.twig", "html_attr", "txt.twig", "dir/js", ".txt", "a.b.js"}
 
 type c12gen struct {
 	t      *rapid.T
@@ -152,7 +154,7 @@ func (g *c12gen) program(sameType bool) *m.Program {
 	g.ntpl = g.intn(1, 4)
 	var pool []string
 	if sameType {
-		groups := [][]string{{"a.html", "b.html.twig", "noext", "h.twig", "i.xml", "dir.d/x", "k.tpl", "m.htm"}, {"c.js", "d.js.twig"}, {"e.css", "l.css.twig"}, {"f.txt", "g.txt.twig"}}
+		groups := [][]string{{"a.html", "b.html.twig", "noext", "h.twig", "i.xml", "dir.d/x", "k.tpl", "m.htm", "txt", "js", "css.twig", "html_attr", "txt.twig", "dir/js"}, {"c.js", "d.js.twig", "a.b.js"}, {"e.css", "l.css.twig"}, {"f.txt", "g.txt.twig", ".txt"}}
 		pool = rapid.SampledFrom(groups).Draw(g.t, "group")
 	} else {
 		pool = c12Names
